@@ -87,7 +87,8 @@ def gen_instance(rng):
             if mat in inst and not inst.get('no_G') or (mat != 'G' and mat in inst):
                 inst[mat] = dict(inst[mat], sparse=True)
     inst['user_kkt'] = bool(rng.random() < 0.25) and choice != 'default' and kind != 'gp'
-    opts = {'show_progress': False}
+    # the progress and termination messages are code on the failure path too (stdout is captured)
+    opts = {'show_progress': bool(rng.random() < 0.35)}
     r = rng.choice([None, None, 0, 1, 2])
     if r is not None:
         opts['refinement'] = r
